@@ -62,6 +62,13 @@ Proof.
 Qed.
 
 (* ---- well-formedness ------------------------------------------------------------------------------ *)
+Lemma find_node_in : forall d x, In x (tids d) -> exists nx, find_node d x = Some nx.
+Proof.
+  induction d as [|a r IH]; simpl; intros x H; [contradiction|].
+  destruct (Pos.eqb (n_tid a) x) eqn:E; [eexists; reflexivity|].
+  destruct H as [H|H]; [apply Pos.eqb_neq in E; contradiction | apply IH; exact H].
+Qed.
+
 Lemma agrees_b_spec : forall n' n, agrees_b n' n = true <-> agrees n' n.
 Proof.
   intros n' n. unfold agrees_b, agrees. destruct (Pos.eqb (n_tid n') (n_tid n)) eqn:E.
@@ -69,56 +76,92 @@ Proof.
   - apply Pos.eqb_neq in E. split; [intros _ H; contradiction | reflexivity].
 Qed.
 
-Lemma wf_from_spec : forall d e, wf_from e d = true <->
-  (forall p n s, d = p ++ n :: s ->
-     (forall x, In x (n_deps n) -> In x (tids (e ++ p))) /\ (forall n', In n' (e ++ p) -> agrees n' n)).
+(* the executable check is sound: whatever candidate order it tried, if the check passes the
+   graph is well-formed (the numbering is the position in the candidate) *)
+Lemma wf_with_sound : forall o d, wf_with o d = true -> wf_dag d.
 Proof.
-  induction d as [|a r IH]; intros e; simpl.
-  - split; [|reflexivity]. intros _ p n s H. destruct p; discriminate.
-  - rewrite !andb_true_iff, subset_b_spec, forallb_forall, IH. split.
-    + intros [[A B] C] p n s H. destruct p as [|a' p'].
-      * simpl in H. inversion H; subst. rewrite app_nil_r. split.
-        -- exact A.
-        -- intros n' Hn'. apply agrees_b_spec. apply B. exact Hn'.
-      * simpl in H. inversion H; subst.
-        replace (e ++ a' :: p') with ((e ++ [a']) ++ p') by (rewrite <- app_assoc; reflexivity).
-        apply C with (s := s). reflexivity.
-    + intros H. split; [split|].
-      * destruct (H [] a r eq_refl) as [A _]. rewrite app_nil_r in A. exact A.
-      * intros n' Hn'. apply agrees_b_spec. destruct (H [] a r eq_refl) as [_ B]. apply B.
-        rewrite app_nil_r. exact Hn'.
-      * intros p n s E. subst r.
-        replace ((e ++ [a]) ++ p) with (e ++ a :: p) by (rewrite <- app_assoc; reflexivity).
-        apply (H (a :: p) n s). reflexivity.
+  intros o d H. unfold wf_with in H. rewrite !andb_true_iff, !forallb_forall in H.
+  destruct H as [[A B] C]. split; [|split].
+  - intros n x Hn Hx. specialize (A n Hn). rewrite subset_b_spec in A. apply A. exact Hx.
+  - intros n n' Hn Hn'. specialize (B n Hn). rewrite forallb_forall in B. apply agrees_b_spec. apply B. exact Hn'.
+  - exists (fun t => index_of t o). split.
+    + intros n Hn. specialize (C n Hn). rewrite andb_true_iff in C. destruct C as [C _].
+      apply Nat.ltb_lt. exact C.
+    + intros n x Hn Hx. specialize (C n Hn). rewrite andb_true_iff, forallb_forall in C. destruct C as [_ C].
+      apply Nat.ltb_lt. apply C. exact Hx.
 Qed.
 
-Lemma wf_dagb_spec : forall d, wf_dagb d = true <-> wf_dag d.
-Proof. intros d. unfold wf_dagb, wf_dag. rewrite wf_from_spec. simpl. tauto. Qed.
-
-Lemma wf_prefix : forall p s, wf_dag (p ++ s) -> wf_dag p.
-Proof.
-  intros p s H p0 n s0 E. apply (H p0 n (s0 ++ s)). subst p. rewrite <- app_assoc. reflexivity.
-Qed.
+Lemma wf_dagb_sound : forall d, wf_dagb d = true -> wf_dag d.
+Proof. intros d. unfold wf_dagb. apply wf_with_sound. Qed.
 
 Lemma wf_deps_in : forall d n x, wf_dag d -> In n d -> In x (n_deps n) -> In x (tids d).
-Proof.
-  intros d n x W Hn Hx. destruct (in_split _ _ Hn) as [p [s E]].
-  destruct (W p n s E) as [A _]. subst d. rewrite tids_app. apply in_or_app. left. apply A. exact Hx.
-Qed.
+Proof. intros d n x [A _] Hn Hx. eapply A; eauto. Qed.
 
 (* objects with the same hash have the same name and the same dependency set *)
 Lemma wf_agree : forall d n n', wf_dag d -> In n d -> In n' d -> n_tid n' = n_tid n ->
   n_name n' = n_name n /\ (forall x, In x (n_deps n') <-> In x (n_deps n)).
+Proof. intros d n n' [_ [B _]] Hn Hn' T. apply (B n n' Hn Hn' T). Qed.
+
+(* ---- the special case: created in dependency order ---------------------------------------------------- *)
+Lemma ordered_from_spec : forall d e, ordered_from e d = true <->
+  (forall p n s, d = p ++ n :: s -> forall x, In x (n_deps n) -> In x (e ++ tids p)).
 Proof.
-  intros d n n' W Hn Hn' T. destruct (in_split _ _ Hn) as [p [s E]]. subst d.
-  apply in_app_or in Hn'. destruct Hn' as [H|[H|H]].
-  - destruct (W p n s eq_refl) as [_ B]. apply (B n' H T).
-  - subst n'. split; [reflexivity | tauto].
-  - destruct (in_split _ _ H) as [p2 [s2 E2]]. subst s.
-    destruct (W (p ++ n :: p2) n' s2) as [_ B].
-    + rewrite <- app_assoc. reflexivity.
-    + assert (In n (p ++ n :: p2)) as I by (apply in_or_app; right; left; reflexivity).
-      destruct (B n I (eq_sym T)) as [N D]. split; [auto|]. intros x. symmetry. apply D.
+  induction d as [|a r IH]; intros e; simpl.
+  - split; [|reflexivity]. intros _ p n s H. destruct p; discriminate.
+  - rewrite andb_true_iff, subset_b_spec, IH. split.
+    + intros [A C] p n s H. destruct p as [|a' p'].
+      * simpl in H. inversion H; subst. simpl. rewrite app_nil_r. exact A.
+      * simpl in H. inversion H; subst. intros x Hx. specialize (C p' n s eq_refl x Hx).
+        simpl. rewrite <- app_assoc in C. exact C.
+    + intros H. split.
+      * intros x Hx. specialize (H [] a r eq_refl x Hx). simpl in H. rewrite app_nil_r in H. exact H.
+      * intros p n s E x Hx. subst r. specialize (H (a :: p) n s eq_refl x Hx). simpl in H.
+        rewrite <- app_assoc. exact H.
+Qed.
+
+Lemma ordered_dagb_spec : forall d, ordered_dagb d = true <-> ordered_dag d.
+Proof. intros d. unfold ordered_dagb, ordered_dag. rewrite ordered_from_spec. simpl. tauto. Qed.
+
+Lemma index_of_app_l : forall t a b, In t a -> index_of t (a ++ b) = index_of t a /\ index_of t a < length a.
+Proof.
+  induction a as [|x r IH]; intros b H; [contradiction|]. simpl.
+  destruct (Pos.eqb x t) eqn:E; [split; [reflexivity | lia]|].
+  destruct H as [H|H]; [apply Pos.eqb_neq in E; contradiction|].
+  destruct (IH b H) as [I1 I2]. split; [rewrite I1; reflexivity | lia].
+Qed.
+
+Lemma index_of_first : forall t l, In t l -> exists p s, l = p ++ t :: s /\ ~ In t p /\ index_of t l = length p.
+Proof.
+  induction l as [|x r IH]; intros H; [contradiction|]. simpl.
+  destruct (Pos.eqb x t) eqn:E.
+  - apply Pos.eqb_eq in E. subst x. exists [], r. simpl. auto.
+  - destruct H as [H|H]; [apply Pos.eqb_neq in E; contradiction|].
+    destruct (IH H) as [p [s [L [N I]]]]. exists (x :: p), s. subst r. simpl. repeat split; auto.
+    intros [F|F]; [apply Pos.eqb_neq in E; contradiction | contradiction].
+Qed.
+
+(* a graph created in dependency order is well-formed (numbering: first position of the hash) *)
+Lemma ordered_wf : forall d, ordered_dag d -> (forall n n', In n d -> In n' d -> agrees n' n) -> wf_dag d.
+Proof.
+  intros d O A. split; [|split].
+  - intros n x Hn Hx. destruct (in_split _ _ Hn) as [p [s E]]. specialize (O p n s E x Hx).
+    subst d. rewrite tids_app. apply in_or_app. left. exact O.
+  - exact A.
+  - exists (fun t => index_of t (tids d)). split.
+    + intros n Hn. assert (I : In (n_tid n) (tids d)) by (apply In_tids; exists n; auto).
+      destruct (index_of_app_l (n_tid n) (tids d) [] I) as [_ L]. unfold tids in L at 2. rewrite map_length in L. exact L.
+    + intros n x Hn Hx.
+      assert (I : In (n_tid n) (tids d)) by (apply In_tids; exists n; auto).
+      destruct (index_of_first _ _ I) as [tp [ts [L [N Ix]]]]. rewrite Ix.
+      (* the first object with that hash: split d at the same position *)
+      unfold tids in L. apply map_eq_app in L. destruct L as [p [r [E [Mp Mr]]]].
+      destruct r as [|n0 s]; [discriminate|]. simpl in Mr. inversion Mr as [[T0 Ms]].
+      assert (H0 : In n0 d) by (rewrite E; apply in_or_app; right; left; reflexivity).
+      destruct (A n n0 Hn H0 T0) as [_ D]. apply D in Hx.
+      specialize (O p n0 s E x Hx).
+      destruct (index_of_app_l x (tids p) (tids (n0 :: s)) O) as [I1 I2].
+      rewrite E, tids_app, I1. unfold tids in I2 at 2. rewrite map_length in I2.
+      rewrite <- Mp. rewrite map_length. exact I2.
 Qed.
 
 Lemma edge_of_node : forall d n b, In n d -> In b (n_deps n) -> edge d (n_tid n) b.
@@ -157,74 +200,3 @@ Proof.
     rewrite forallb_forall. intros x Hx. eapply H; eauto.
 Qed.
 
-(* ---- the executable closure computes reachability --------------------------------------------------- *)
-Section Closure.
-  Variable d : dag.
-  Variable sel : node -> bool.
-  Hypothesis W : wf_dag d.
-  Hypothesis SelOk : forall n n', In n d -> In n' d -> n_tid n = n_tid n' -> sel n = sel n'.
-
-  Definition reach_sel (t : tid) : Prop :=
-    exists n, In n d /\ sel n = true /\ depends_on d t (n_tid n).
-
-  Lemma reach_sel_unfold : forall n, In n d ->
-    (reach_sel (n_tid n) <-> sel n = true \/ exists x, In x (n_deps n) /\ reach_sel x).
-  Proof.
-    intros n Hn. split.
-    - intros [n0 [H0 [M D]]]. inversion D as [a E1 E2 | a b c E D2 E1 E2]; subst.
-      + left. rewrite (SelOk n n0 Hn H0); auto.
-      + right. exists b. split.
-        * apply (edge_deps d n b W Hn). exact E.
-        * exists n0. auto.
-    - intros [M | [x [Hx [n0 [H0 [M D]]]]]].
-      + exists n. repeat split; auto. apply dep_refl.
-      + exists n0. repeat split; auto. eapply dep_step; [apply edge_of_node; eassumption | exact D].
-  Qed.
-
-  Lemma closure_from_spec : forall r p acc, d = p ++ r ->
-    (forall t, In t acc <-> In t (tids p) /\ reach_sel t) ->
-    forall t, In t (closure_from sel r acc) <-> In t (tids d) /\ reach_sel t.
-  Proof.
-    induction r as [|n r IH]; intros p acc E A t.
-    - simpl. rewrite app_nil_r in E. rewrite E. apply A.
-    - assert (Hn : In n d) by (rewrite E; apply in_or_app; right; left; reflexivity).
-      assert (E2 : d = (p ++ [n]) ++ r) by (rewrite <- app_assoc; exact E).
-      assert (B : sel n || existsb (fun x => mem x acc) (n_deps n) = true <-> reach_sel (n_tid n)).
-      { rewrite (reach_sel_unfold n Hn). rewrite orb_true_iff, existsb_exists. split.
-        - intros [H|[x [Hx M]]]; [left; exact H|]. right. exists x. split; [exact Hx|].
-          apply mem_In in M. apply A in M. tauto.
-        - intros [H|[x [Hx R]]]; [left; exact H|]. right. exists x. split; [exact Hx|].
-          apply mem_In. apply A. split; [|exact R]. destruct (W p n r E) as [D _]. apply D. exact Hx. }
-      simpl. destruct (sel n || existsb (fun x => mem x acc) (n_deps n)) eqn:C.
-      + apply (IH (p ++ [n])); [exact E2|]. intros u. rewrite tids_app. simpl. split.
-        * intros [H|H]; [subst u; split; [apply in_or_app; right; left; reflexivity | apply B; reflexivity]|].
-          apply A in H. destruct H as [H1 H2]. split; [apply in_or_app; left; exact H1 | exact H2].
-        * intros [H1 H2]. apply in_app_or in H1. destruct H1 as [H1|[H1|[]]]; [right; apply A; tauto | left; exact H1].
-      + apply (IH (p ++ [n])); [exact E2|]. intros u. rewrite tids_app. simpl. split.
-        * intros H. apply A in H. destruct H as [H1 H2]. split; [apply in_or_app; left; exact H1 | exact H2].
-        * intros [H1 H2]. apply in_app_or in H1. destruct H1 as [H1|[H1|[]]]; [apply A; tauto|].
-          subst u. apply B in H2. congruence.
-  Qed.
-
-  Lemma closure_spec : forall t, In t (closure sel d) <-> In t (tids d) /\ reach_sel t.
-  Proof.
-    intros t. unfold closure. apply (closure_from_spec d [] []); [reflexivity|].
-    intros u. simpl. tauto.
-  Qed.
-End Closure.
-
-Lemma depends_on_b_spec : forall d a c, wf_dag d -> (depends_on_b d a c = true <-> depends_on d a c).
-Proof.
-  intros d a c W. unfold depends_on_b. rewrite orb_true_iff, Pos.eqb_eq, mem_In.
-  rewrite (closure_spec d (fun n => Pos.eqb (n_tid n) c) W).
-  2:{ intros n n' _ _ T. rewrite T. reflexivity. }
-  split.
-  - intros [H|[_ [n [_ [T D]]]]]; [subst; apply dep_refl|]. apply Pos.eqb_eq in T. subst c. exact D.
-  - intros D. destruct (Pos.eqb a c) eqn:E; [apply Pos.eqb_eq in E; left; exact E|]. right.
-    apply Pos.eqb_neq in E. split.
-    + destruct D as [a | a b c [n [Hn [T _]]] _]; [congruence|]. apply In_tids. exists n. auto.
-    + destruct (depends_on_in d a c W D) as [H|H]; [congruence|].
-      apply In_tids in H. destruct H as [n [Hn T]]. exists n. repeat split; auto.
-      * apply Pos.eqb_eq. exact T.
-      * rewrite T. exact D.
-Qed.
